@@ -16,14 +16,15 @@ def _broker_run(prop, tier):
     unknown, hits = vlib.split_known(prop, mine)
     nontrivial = {f["sig"] for f in fam["features"] if f["flags"].get(prop)}
     mc = fam.get("mc") or {}
-    bad_traces = {v["trace"] for v in mine}
+    bad_traces = {os.path.basename(v["trace"]) + "@" + os.path.dirname(v["trace"])[-12:] for v in mine}
+    unvalidated = bad_traces | set(fam.get("div_trace_names", []))
     coverage = {
         "evaluations": fam["traces"],
         "distinct_nontrivial": len(nontrivial),
         "rule": fam_broker.RULES[prop],
         "samples": fam["samples"],
         "events": fam["events"],
-        "traces_validated_against_impl": fam["traces"] - len(bad_traces) - fam.get("divergent_traces", 0),
+        "traces_validated_against_impl": max(0, fam["traces"] - len(unvalidated)),
         "divergent_traces": fam.get("divergent_traces", 0),
         "divergences": fam.get("divergences", [])[:10],
         "traces_with_monitor_failure": len(bad_traces),
@@ -195,3 +196,53 @@ def _routing_run(prop, tier):
 
 CHECKS["C02"] = {"run": _routing_run, "replay": _case_replay}
 CHECKS["C14"] = {"run": _routing_run, "replay": _case_replay}
+
+
+def _c09_run(prop, tier):
+    t0 = time.time()
+    fam = fam_codec.slot_family(tier)
+    return _codec_finish(prop, tier, fam, t0,
+        "case = CLUSTER KEYSLOT of one key (all keys over {a,b,{,}} up to length %d plus random binary keys with braces), or one single-key / "
+        "multi-key command sent to a real proxy holding a hand-built random slot layout (several ranges per node, single-slot ranges, gaps, "
+        "two local nodes, two peers; keys at every range boundary +-1); the TLA+ spec recomputes CRC16-XMODEM / hash tag / decision; "
+        "non-trivial iff a routing decision or a brace key" % fam["maxlen"],
+        ["Slot.tla's CRC16 is checked against published check values (Slot_MC)",
+         "scripts are not executed by the stand-in (EVAL returns 1); only routing is observed"],
+        "brace-alphabet keys enumerated completely up to the stated length; layouts and binary keys are sampled")
+
+
+CHECKS["C09"] = {"run": _c09_run, "replay": _case_replay}
+
+
+def _c17_run(prop, tier):
+    t0 = time.time()
+    fam = fam_codec.wire_family(tier)
+    return _codec_finish(prop, tier, fam, t0,
+        "case = one generated control-plane message (cluster metadata with 0-2 local nodes x 0-2 tagged slot ranges x multi-range lists, 0-2 peers, "
+        "config variants; replication metadata; migration task descriptor) sent through the real encoder and the real parser (plain, gzip+base64, SETREPL, "
+        "INFOMGR join/split), or one corrupted encoding (every single-token deletion, every truncation, cross-kind token replacements, damaged compressed "
+        "payloads); non-trivial iff it has peers/tags or is a corruption case",
+        ["value equality is judged by TLC on a canonical JSON projection (nodes sorted by address)",
+         "same-kind token replacements are excluded from the corruption model (they are legitimately different messages)",
+         "the proxy->coordinator->broker journey of a descriptor is exercised by the C02/C14 full-stack runs (real INFOMGR -> real commit)"],
+        "generated values, not all values")
+
+
+CHECKS["C17"] = {"run": _c17_run, "replay": _case_replay}
+
+
+def _c20_run(prop, tier):
+    t0 = time.time()
+    fam = fam_codec.compress_family(tier)
+    return _codec_finish(prop, tier, fam, t0,
+        "case = one write shape (SET with EX/PX/NX/XX/KEEPTTL after the value, SETEX, PSETEX, SETNX, GETSET, MSET, MSETNX) x one value class "
+        "(empty, 1 byte, CR/LF, binary, long compressible, incompressible random, 1 MiB) x strategy, executed through a real proxy against a storing "
+        "stand-in and read back with GET, MGET, GETSET; plus byte-observing commands per strategy; values compared as (length, hash, head) fingerprints; "
+        "non-trivial iff compression is enabled",
+        ["fingerprint equality (length + 31-bit hash + first 6 bytes) stands for byte equality",
+         "zstd itself is opaque: only round-trip equality through the real code is checked",
+         "byte-level universality is sampled, not decided"],
+        "shapes x strategies enumerated; values sampled")
+
+
+CHECKS["C20"] = {"run": _c20_run, "replay": _case_replay}
